@@ -27,6 +27,20 @@ def strip_comments(txt):
 
 FORBIDDEN = re.compile(r"\b(Admitted|admit|Axiom|Axioms|Parameter|Parameters|Conjecture|Hypothesis|Hypotheses|Variable|Variables|Admit Obligations|bypass_check)\b|Unset Guard|Unset Positivity|Unset Universe|type-in-type|impredicative-set")
 
+def repo_state():
+    """what the correspondence run was run against: git HEAD, whether the tree is dirty, and a digest of the library sources"""
+    import hashlib, glob
+    h = hashlib.sha256()
+    files = sorted(glob.glob("/repo/biobalm/**/*.py", recursive=True))
+    for f in files:
+        h.update(f.encode()); h.update(open(f, "rb").read())
+    try:
+        head = subprocess.run(["git", "-C", "/repo", "rev-parse", "--short", "HEAD"], capture_output=True, text=True).stdout.strip()
+        dirty = bool(subprocess.run(["git", "-C", "/repo", "status", "--porcelain", "--untracked-files=no"], capture_output=True, text=True).stdout.strip())
+    except Exception:
+        head, dirty = "?", None
+    return {"git_head": head, "working_tree_modified": dirty, "biobalm_sources": len(files), "biobalm_sources_sha256": h.hexdigest()}
+
 def coq_stage(prop, tier):
     """full .vo build, forbidden-token audit, re-check of props/<prop>.v with Print Assumptions"""
     info = {"obligations": 0, "discharged": 0, "axioms": [], "ok": False, "log": "", "theorems": []}
@@ -242,6 +256,7 @@ def main():
             "disagreements_checked": len(res["violations"]),
             "exhaustive": bool(res.get("exhaustive", False)),
             **res.get("extra", {}),
+            "repo_state": repo_state(),
         },
         "assumptions": tb["assumptions"] + res.get("assumptions", []),
         "wall_s": round(time.time() - t0, 2),
